@@ -18,6 +18,9 @@
              i!<id>.<id>...;<id>.<id>.../<eof>
    c08.mpages <machine> <chunks> <ops>   multiPages: chunks (row groups) of one column separated by ";"
      machine: idx | noidx | spec          ops and answer as c08.pages, global row numbers
+   c08.nested <machine> <nest> <chunks> <ops>   multiPages over the column of MultiRowGroup applied as <nest>
+     says, e.g. (((0,1),2),3) over the chunks 0..3 (Cursor/Nested.v: the flattening of multiRowGroup.init)
+     machine: idx | noidx | children_counts (row counts of the direct children) | spec
    c08.mgrows <machine> <cols> <ops>     rows of a multiRowGroup: columns "/", chunks ";", pages ","
      machine: idx | noidx | spec
    c08.reader <machine> <cols> <ops>     Reader / GenericReader
@@ -116,6 +119,30 @@ let cop_of_tok t : Model.cop =
   else if String.length t > 1 && t.[0] = 's' then Model.CSeek (nat_of_hex (tail t))
   else failwith ("cop " ^ t)
 
+(* "(((0,1),2),3)": applications of MultiRowGroup, the leaves are indexes of chunks *)
+let tree_of_nest (s : string) (chunks : Model.nat list array) : Model.rgtree =
+  let n = String.length s in
+  let pos = ref 0 in
+  let rec parse () =
+    if !pos >= n then failwith "nest";
+    if s.[!pos] = '(' then begin
+      incr pos;
+      let rec children acc =
+        let c = parse () in
+        if !pos < n && s.[!pos] = ',' then (incr pos; children (c :: acc))
+        else if !pos < n && s.[!pos] = ')' then (incr pos; List.rev (c :: acc))
+        else failwith "nest" in
+      Model.RGNode (children [])
+    end else begin
+      let st = !pos in
+      while !pos < n && s.[!pos] >= '0' && s.[!pos] <= '9' do incr pos done;
+      if !pos = st then failwith "nest";
+      Model.RGLeaf chunks.(int_of_string (String.sub s st (!pos - st)))
+    end in
+  let t = parse () in
+  if !pos <> n then failwith "nest";
+  t
+
 let () =
   register "c08.mrows" (function
     | [m; cols; ops] ->
@@ -143,6 +170,20 @@ let () =
           | _ -> failwith "c08.mpages machine" in
         tok_of_list tok_of_out outs
     | _ -> failwith "c08.mpages args");
+  register "c08.nested" (function
+    | [m; nest; chunks; ops] ->
+        let chunks = Array.of_list (chunks_of_tok chunks) in
+        let ops = list_of_tok op_of_tok ops in
+        let t = tree_of_nest nest chunks in
+        let outs =
+          match m with
+          | "idx" -> Model.run_nested_indexed t ops
+          | "noidx" -> Model.run_nested_noindex t ops
+          | "children_counts" -> Model.run_nested_children_counts t ops
+          | "spec" -> Model.run_spec_noindex (List.concat (Array.to_list chunks)) ops
+          | _ -> failwith "c08.nested machine" in
+        tok_of_list tok_of_out outs
+    | _ -> failwith "c08.nested args");
   register "c08.mgrows" (function
     | [m; cols; ops] ->
         let cols = colsn_of_tok cols in
